@@ -70,7 +70,10 @@ OPCODE = {"begin": 0, "commit": 1, "rollback": 2, "insert": 3, "select": 4, "fai
 
 
 def enc(nconn, hist):
-    return [nconn, [[c, OPCODE[op[0]]] + ([op[1]] if op[0] == "insert" else []) for c, _k, op, _v in hist]]
+    # a failing statement that names an unknown database fails before the engine starts it (no snapshot): its own op in the model
+    def code(op, v):
+        return 6 if op[0] == "fail" and "nodb." in FAILS[v % len(FAILS)] else OPCODE[op[0]]
+    return [nconn, [[c, code(op, v)] + ([op[1]] if op[0] == "insert" else []) for c, _k, op, v in hist]]
 
 
 def canon_model(m, hist):
